@@ -13,6 +13,6 @@ Init == l = 1 /\ bad = <<>>
 Next == /\ l <= Len(Rec)
         /\ bad' = IF Conforms(Rec[l]) THEN bad ELSE Append(bad, l)
         /\ l' = l + 1
-Report == (l = Len(Rec) + 1) => PrintT(<<"INFO", "bad", bad>>)
+Report == (l = Len(Rec) + 1) => PrintT(<<"INFO", "bad", ToJson(bad)>>)
 Accepted == PrintT(<<"INFO", "matched", TLCGet("stats").diameter - 1>>)
 =============================================================================
